@@ -11,6 +11,7 @@ import (
 	"encoding/json"
 	"fmt"
 	"math/rand"
+	"os"
 	"regexp"
 	"sort"
 	"strings"
@@ -35,7 +36,7 @@ type input struct {
 // "the layout does not progress".
 const stallLimit = 8
 
-type stall struct{ msg string }
+type stall struct{ kind, msg string }
 
 func counts(tier string) (docs, skips int) {
 	if tier == "thorough" {
@@ -89,15 +90,23 @@ func render(d gen.Doc, res *fw.Result) (r *wr.Rendered, stalled string, err erro
 	)
 	layout.VerifPageHook = func(index int, resumeAt string, oof, foot int, page *bo.PageBox) {
 		res.Count("page_loop_iterations", 1)
-		if resumeAt == "nil" {
-			last, repeats = "", 0
+		if os.Getenv("C01_TRACE_PAGES") != "" && (index < 12 || index%500 == 0) {
+			fmt.Fprintf(os.Stderr, "page %d resume=%s oof=%d foot=%d type=%+v\n", index, resumeAt, oof, foot, page.PageType)
+		}
+		if resumeAt == "nil" && foot == 0 {
+			last, repeats = "", 0 // the loop ends here
 			return
 		}
-		state := fmt.Sprintf("%s|%d|%d|%v|%v|%s", resumeAt, oof, foot, page.PageType.Blank, page.PageType.Side, page.PageType.Name)
+		// the page side alternates and the index grows by construction: neither is progress
+		state := fmt.Sprintf("%s|%d|%d|%v|%s", resumeAt, oof, foot, page.PageType.Blank, page.PageType.Name)
 		if state == last {
 			repeats++
 			if repeats >= stallLimit {
-				panic(stall{fmt.Sprintf("page loop made no progress for %d consecutive pages (page index %d): resume point %s, %d pending out-of-flow boxes, %d pending footnotes", repeats+1, index, resumeAt, oof, foot)})
+				kind := "content"
+				if resumeAt == "nil" {
+					kind = "footnotes"
+				}
+				panic(stall{kind, fmt.Sprintf("page loop made no progress for %d consecutive pages (page index %d): resume point %s, %d pending out-of-flow boxes, %d pending footnotes", repeats+1, index, resumeAt, oof, foot)})
 			}
 		} else {
 			last, repeats = state, 0
@@ -107,7 +116,7 @@ func render(d gen.Doc, res *fw.Result) (r *wr.Rendered, stalled string, err erro
 		layout.VerifPageHook = nil
 		if p := recover(); p != nil {
 			if s, ok := p.(stall); ok {
-				stalled = s.msg
+				stalled = s.kind + ": " + s.msg
 				return
 			}
 			panic(p)
@@ -136,7 +145,7 @@ func check(raw json.RawMessage) fw.Result {
 	}
 	r, stalled, err := render(in.Doc, &res)
 	if stalled != "" {
-		res.Fail("page-loop-stall", stalled)
+		res.Fail("page-loop-stall:"+strings.SplitN(stalled, ":", 2)[0], stalled)
 		return res
 	}
 	if err != nil {
@@ -175,7 +184,7 @@ func check(raw json.RawMessage) fw.Result {
 	base := drawnTokens(r)
 	r2, stalled, err := render(*in.Injected, &res)
 	if stalled != "" {
-		res.Fail("page-loop-stall", stalled)
+		res.Fail("page-loop-stall:"+strings.SplitN(stalled, ":", 2)[0], stalled)
 		return res
 	}
 	if err != nil {
